@@ -538,7 +538,7 @@ structure Script where
   kind : Kind
   cfg : Nat            -- 0 not Configurable, 1 Configure succeeds, 2 Configure fails
   getOk : Bool
-  fmode : Nat          -- 0 Unchanged iff prev = src; 1 always error; 2 always Unchanged; 3 always changed
+  fmode : Nat          -- 0 Unchanged iff prev = src; 1 always error; 2 always Unchanged (and hands back src); 3 always changed
   src : Fp             -- fingerprint of the source's current content
   parseOk : Bool
   vulns : List Nat
@@ -551,7 +551,7 @@ deriving DecidableEq, Repr
 def Script.fetch (sc : Script) (prev : Fp) (d : Bool) : FetchRes × Fp :=
   if sc.ctxAware && d then (.err, 0)
   else if sc.fmode = 1 then (.err, sc.src)
-  else if sc.fmode = 2 then (.unchanged, prev)
+  else if sc.fmode = 2 then (.unchanged, sc.src)
   else if sc.fmode = 3 then (.ok, sc.src)
   else if prev = sc.src then (.unchanged, prev)
   else (.ok, sc.src)
